@@ -12,6 +12,8 @@ Inductive c05_case :=
 (* ReadFrame with ReadMetaHeaders: limit, stream, per fragment (length, fields completed in it) *)
 | H2Meta (max_list sid : N) (frags : list (N * list hfield)) (obs : meta_res)
 (* HTTP/3: one ParseNext call on a reader holding input; the bytes left are compared on success *)
+(* several header blocks through ONE Framer / hpack decoder *)
+| H2MetaSeq (max_list : N) (blocks : list (N * list (N * list hfield))) (obs : list meta_res)
 | H3Next (body : bool) (input : bytes) (obs : h3res h3frame) (obs_rest : option bytes)
 (* dataFrame/headersFrame.Append (t = 0 / 1) *)
 | H3FrameHdr (t l : N) (obs : option bytes)
@@ -155,6 +157,13 @@ Definition hres_eqb {A} (eq : A -> A -> bool) (m o : hres A) : bool :=
   | _, _ => false
   end.
 
+Definition meta_res_eqb (a b : meta_res) : bool :=
+  match a, b with
+  | MOk f t, MOk f' t' => list_eqb (fun a b => bytes_eqb (fst a) (fst b) && bytes_eqb (snd a) (snd b)) f f' && Bool.eqb t t'
+  | MErr e, MErr e' => h2err_eqb e e'
+  | _, _ => false
+  end.
+
 Definition c05_check (c : c05_case) : bool :=
   match c with
   | VarintEnc v l e => optN_eqb (vi_len v) l && opt_bytes_eqb (vi_append v) e
@@ -163,12 +172,8 @@ Definition c05_check (c : c05_case) : bool :=
   | H2Read mx i obs =>
       list_eqb res_eqb (read_frames (length obs) {| rs_last := 0; rs_max := set_max_read mx |} i) obs
   | H2Write c obs => wres_eqb (run_wcall c) obs
-  | H2Meta mx sid frags obs =>
-      match h2_meta mx sid frags, obs with
-      | MOk f t, MOk f' t' => list_eqb (fun a b => bytes_eqb (fst a) (fst b) && bytes_eqb (snd a) (snd b)) f f' && Bool.eqb t t'
-      | MErr e, MErr e' => h2err_eqb e e'
-      | _, _ => false
-      end
+  | H2Meta mx sid frags obs => meta_res_eqb (h2_meta mx sid frags) obs
+  | H2MetaSeq mx blocks obs => list_eqb meta_res_eqb (h2_meta_seq true mx blocks) obs
   | H3Next body i obs rest =>
       let '(r, lft) := h3_parse_next_b body i in
       h3res_frame_eqb r obs && match rest with Some x => bytes_eqb lft x | None => true end
